@@ -110,6 +110,9 @@ def cases(tier, seed, i, n):
                             for st in (styles if tier == 'thorough' else [rnd.choice(styles), rnd.choice(styles)]):
                                 yield dict(kind='s2c', cfg=cfg, hseed=rnd.randrange(1 << 30), style=st,
                                            mixed=rnd.random() < 0.5)
+                            if k % 3 == 0:
+                                yield dict(kind='s2c', cfg=cfg, hseed=rnd.randrange(1 << 30), style=rnd.choice(('sync', 'sync_multi', 'full')),
+                                           mixed=False, cfail=('timeout', 'runtime')[k // 3 % 2])
         yield gen.mark('all 8x8x2x2 negotiated configurations, both directions')
         for big in ((20 << 20) + 1, (16 << 20) + 300, 70000000 if tier == 'thorough' else (33 << 20)):
             yield dict(kind='s2c', cfg=dict(sb=15, cb=15, snct=False, cnct=False, sp=0), hseed=big, style='sync', mixed=False, big=big)
@@ -302,7 +305,19 @@ def run_s2c(case, acc):
     if seg == 'rand':
         cuts = [130 + c for c in gen.rand_cuts(rnd, len(body))]
     w = H.World(H.hs_server([('raw', body), ('eof',)], hs), cuts=cuts)
-    run = H.drive(w, ws_kwargs=dict(compress=True), connect_kwargs=dict(ping_rate=0))
+    policy = None
+    if case.get('cfail'):
+        # in the middle of the server's history the application makes a compressed send that FAILS (the write times
+        # out with nothing written, or it is refused): the receiving direction has nothing to do with it - what
+        # the peer sends afterwards still refers to ITS history
+        sent_once = []
+
+        def policy(ws, ev, idx, run_):
+            if ev.name in ('text', 'binary') and not sent_once and len([e for e in run_.events if e.name in ('text', 'binary')]) >= 2:
+                sent_once.append(H.app_call(run_, ws, 'send_text', 'client message that does not get out ' * 3))
+        w.frame_faults = {1: case['cfail']}
+        acc.count2('s2c', 'histories_with_a_failing_client_send')
+    run = H.drive(w, ws_kwargs=dict(compress=True), connect_kwargs=dict(ping_rate=0), policy=policy)
     acc.count2('configs', 's2c')
     evs = [e for e in run.events if e.name in ('text', 'binary', 'ping', 'pong', 'protocol_error')]
     got = []
